@@ -207,9 +207,11 @@ def main():
     mods = {3: build_module(3), None: build_module(None), 1: build_module(1), 65536: build_module(65536)}
     # a shared memory (allocated at its maximum up front) has the same single-threaded meaning
     shared3 = build_module(3, shared=True)
+    # ... and one with the largest maximum that can be declared (4 GiB of address space, touched in its first pages only)
+    sharedmax = build_module(65536, shared=True)
     for h in range(nhist):
         mp = rng.choice([3, 3, 3, None, 1, 65536])
-        items.append({"id": "h%d" % h, "module": shared3 if mp == 3 and h % 3 == 0 else mods[mp],
+        items.append({"id": "h%d" % h, "module": shared3 if mp == 3 and h % 3 == 0 else sharedmax if mp == 65536 and h % 2 == 0 else mods[mp],
                       "script": [{"op": "instantiate", "binds": {"mem": 0, "table": 0, "globals": []}}] + history(rng, mp, length)})
     # a declared maximum of zero pages is a maximum
     zero = build_module(0, minpages=0)
